@@ -119,10 +119,11 @@ STATE_TYPES = ('alloc::vec::Vec<bool>', '&mut alloc::vec::Vec<bool>', '[core::ce
 def visited_state_origin(body, o):
     """does the origin touch a per-node visited/in-progress table?"""
     for a in o.atoms:
-        if a[0] == 'param' and is_bool_table(body.local_ty(a[1])):
+        if a[0] == 'param' and (is_bool_table(body.local_ty(a[1])) or status_table_enum(body.facts, body.local_ty(a[1])) is not None):
             return True
+    vf = visited_field_names(body.facts)
     for fld in o.fields:
-        if fld in ('named_type_written', 'unnamed_in_progress', 'node_traversal_state', 'visited_nodes', 'in_progress', 'visited'):
+        if fld in vf:
             return True
     return False
 
